@@ -116,7 +116,7 @@ func runC01(c *Ctx) {
 
 	fams := c01Families(c, m)
 	c01TierReset(c, p)
-	c01Cancel(c, m, fams)
+	c01Cancel(c, m, fams, "C01.cancel")
 	c01FlushClears(c, m)
 	c01NilNoType(c, p)
 	c01Sync(c, p)
@@ -279,7 +279,7 @@ func (m *seqModel) c01CallersHold(fn *ssa.Function, k ssa.Value, hold func(at ss
 	return n > 0
 }
 
-func c01Cancel(c *Ctx, m *seqModel, fams []*c01Family) {
+func c01Cancel(c *Ctx, m *seqModel, fams []*c01Family, prefix string) {
 	p := m.p
 	for _, fam := range fams {
 		nStore, nAdd := 0, 0
@@ -291,7 +291,7 @@ func c01Cancel(c *Ctx, m *seqModel, fams []*c01Family) {
 					return
 				}
 				nStore++
-				key := "C01.cancel/" + fam.U.Name() + "/store@" + fnName(f)
+				key := prefix + "/" + fam.U.Name() + "/store@" + fnName(f)
 				kid := c01KeyID(mu.Key)
 				good := m.c01Around(m.c01Discards(f, fam.D, kid), in) ||
 					m.c01CallersHold(f, mu.Key, func(at ssa.Instruction, k ssa.Value) bool {
@@ -307,7 +307,7 @@ func c01Cancel(c *Ctx, m *seqModel, fams []*c01Family) {
 					continue
 				}
 				nAdd++
-				key := "C01.cancel/" + fam.D.Name() + "/add@" + fnName(f)
+				key := prefix + "/" + fam.D.Name() + "/add@" + fnName(f)
 				k := cs.Args()[1]
 				good := m.c01Around(c01Deletes(f, fam.U, c01KeyID(k)), cs.Instr) ||
 					m.c01CallersHold(f, k, func(at ssa.Instruction, ak ssa.Value) bool {
